@@ -17,7 +17,16 @@
 //! Utility for parsing `AttrChar` strings as a fnmatch pattern
 
 use super::AttrChar;
+use super::Origin;
 use yash_fnmatch::PatternChar;
+
+/// Tests whether the character is matched literally in a pattern.
+///
+/// A character is literal if it is quoted or results from a tilde expansion,
+/// which is treated as if quoted.
+fn is_literal(c: &AttrChar) -> bool {
+    c.is_quoted || c.origin == Origin::HardExpansion
+}
 
 /// Converts unquoted backslashes to quoting characters.
 ///
@@ -26,7 +35,7 @@ use yash_fnmatch::PatternChar;
 pub fn apply_escapes(chars: &mut [AttrChar]) {
     for j in 1..chars.len() {
         let i = j - 1;
-        if chars[i].value == '\\' && !chars[i].is_quoting && !chars[i].is_quoted {
+        if chars[i].value == '\\' && !chars[i].is_quoting && !is_literal(&chars[i]) {
             chars[i].is_quoting = true;
             chars[j].is_quoted = true;
         }
@@ -38,7 +47,7 @@ pub fn to_pattern_chars(chars: &[AttrChar]) -> impl Iterator<Item = PatternChar>
     chars.iter().filter_map(|c| {
         if c.is_quoting {
             None
-        } else if c.is_quoted {
+        } else if is_literal(c) {
             Some(PatternChar::Literal(c.value))
         } else {
             Some(PatternChar::Normal(c.value))
